@@ -8,6 +8,7 @@ import (
 	"strings"
 
 	"github.com/Comcast/sheens/core"
+	"github.com/Comcast/sheens/interpreters"
 	_ "github.com/Comcast/sheens/interpreters/ecmascript"
 )
 
@@ -20,6 +21,9 @@ type ASpec struct {
 	NoAutoErrorNode     bool              `json:"noErrorNode,omitempty"`
 	ActionErrorBranches bool              `json:"actionErrorBranches,omitempty"`
 	ActionErrorNode     string            `json:"actionErrorNode,omitempty"`
+	// Interpreter, if set, is the name every source gives for its interpreter, and the
+	// spec is compiled with the standard interpreter map (interpreters.Standard()).
+	Interpreter string `json:"interpreter,omitempty"`
 }
 
 type ANode struct {
@@ -96,6 +100,20 @@ func (a *ASpec) Core(native bool, mode NativeMode) *core.Spec {
 		}
 		s.Nodes[name] = cn
 	}
+	if a.Interpreter != "" {
+		for _, cn := range s.Nodes {
+			if cn.ActionSource != nil {
+				cn.ActionSource.Interpreter = a.Interpreter
+			}
+			if cn.Branches != nil {
+				for _, cb := range cn.Branches.Branches {
+					if cb.GuardSource != nil {
+						cb.GuardSource.Interpreter = a.Interpreter
+					}
+				}
+			}
+		}
+	}
 	return s
 }
 
@@ -109,7 +127,11 @@ func deepPlain(x interface{}) interface{} {
 // Compiled renders and compiles.
 func (a *ASpec) Compiled(native bool, mode NativeMode) (*core.Spec, error) {
 	s := a.Core(native, mode)
-	if err := s.Compile(context.Background(), nil, true); err != nil {
+	var interps core.Interpreters
+	if a.Interpreter != "" {
+		interps = interpreters.Standard()
+	}
+	if err := s.Compile(context.Background(), interps, true); err != nil {
 		return nil, err
 	}
 	return s, nil
